@@ -111,12 +111,14 @@ fn report_failure<M: Model>(m: &M, rep: &Report, hist: &[M::Op], f: &Fail, case_
         _ => f.detail.clone(),
     };
     let ops: Vec<String> = min.iter().map(|o| format!("{:?}", o)).collect();
+    let short = |s: &String| if s.chars().count() > 90 { format!("{}…", s.chars().take(90).collect::<String>()) } else { s.clone() };
+    let ops_short: Vec<String> = ops.iter().map(short).collect();
     rep.violation(Violation {
         key: match &f.fixed_key {
             Some(k) => format!("{}|{}", f.sig, k),
             None => format!("{}|{}|{}", m.name(), f.sig, m.history_key(&min)),
         },
-        what: format!("history [{}]: {}", ops.join(", "), detail),
+        what: format!("history [{}]: {}", ops_short.join(", "), detail),
         case: json!({"model": m.name(), "ops": ops, "extra": case_extra}),
     });
 }
